@@ -1,8 +1,8 @@
 (* C19 -- Adjacent groups consume contiguous blocks only.
    Property theorems only; proofs live in Lemmas/.
    `ev_inscope ev` = the group's member parser keeps its scope and consumes only inside it; it is
-   proved below for the shapes the property quantifies over (flags, arguments, positionals, optional
-   / guarded / parsed / mapped members, combined by construct!). *)
+   proved below for the shapes the property quantifies over (flags, arguments, positionals under optional
+   / many / some / count / last / fallback / guard / parse / map / hide, combined by construct!). *)
 From BpafLemmas Require Import Tac Find Reach Ledger NoLoss C05Lemmas AdjLaws.
 
 (* The block theorem.  If `construct!(..).adjacent()` yields a value, there is ONE interval [a, b)
@@ -57,6 +57,13 @@ Theorem C19_members_inscope :
     (forall ev c m, ev_inscope ev -> ev_inscope (guard_body ev c m)) /\
     (forall ev f, ev_inscope ev -> ev_inscope (parse_body ev f)) /\
     (forall ev f, ev_inscope ev -> ev_inscope (map_body ev f)) /\
+    (forall ev c, ev_inscope ev -> ev_inscope (many_body ev c)) /\
+    (forall ev m c, ev_inscope ev -> ev_inscope (some_body ev m c)) /\
+    (forall ev, ev_inscope ev -> ev_inscope (count_body ev)) /\
+    (forall ev, ev_inscope ev -> ev_inscope (last_body ev)) /\
+    (forall ev fb, ev_inscope ev -> ev_inscope (fallback_with_body ev fb)) /\
+    (forall ev, ev_inscope ev -> ev_inscope (hide_body ev)) /\
+    (forall eva evb, ev_inscope eva -> ev_inscope evb -> ev_inscope (or_body eva evb)) /\
     (forall ff evs, Forall ev_inscope evs -> ev_inscope (con_body ff evs)).
 Proof.
   intros env.
@@ -67,6 +74,13 @@ Proof.
   split; [intros; apply guard_inscope; assumption|].
   split; [intros; apply parse_inscope; assumption|].
   split; [intros; apply map_inscope; assumption|].
+  split; [intros; apply many_inscope; assumption|].
+  split; [intros; apply some_inscope; assumption|].
+  split; [intros; apply count_inscope; assumption|].
+  split; [intros; apply last_inscope; assumption|].
+  split; [intros; apply fallback_with_inscope; assumption|].
+  split; [intros; apply hide_inscope; assumption|].
+  split; [intros; apply or_inscope; assumption|].
   intros; apply con_inscope; assumption.
 Qed.
 Print Assumptions C19_members_inscope.
